@@ -59,7 +59,11 @@ def replay_chunk(ctx, texts):
         last = resets[-1]
         from .nolook_check import _obs_feature
         Obs = _obs_feature()
-        w = replay_env.World(cfg, ctx["trade"], seed=3, extra_features=lambda ww: [Obs(ww.A, ww.B)])
+        # the environment with the history is built on a Transmitter that first served another environment configured with a
+        # different latency; the fresh one gets a Transmitter of its own: same configuration, same results
+        cfg_used = dict(cfg)
+        cfg_used["reuse_transmitter"] = True
+        w = replay_env.World(cfg_used, ctx["trade"], seed=3, extra_features=lambda ww: [Obs(ww.A, ww.B)])
         got = []
         for rec in hist:
             if rec["call"] == "reset":
